@@ -778,7 +778,7 @@ func main() {
 	var longs []*Case
 	for i := 0; i < nlong; i++ {
 		c := genLong(r, []string{"fixedlength2", "csv2"}[i%2], i/2%64, i/2%5)
-		h.generated(c, i%12 == 0)
+		h.generated(c, i%12 == 0 && i < 96) // few long cases go to Coq: a case file with dozens of them needs gigabytes to parse
 		h.sum.Hist("long-input")
 		longs = append(longs, c)
 		if len(longs) >= 3 && i%6 == 5 {
@@ -797,7 +797,7 @@ func main() {
 			drv = "csv2"
 		}
 		c := genDirected(r, drv, i%5, i/5)
-		h.generated(c, i%10 == 0)
+		h.generated(c, i%10 == 0 && i < 60)
 		h.sum.Hist("directed-refill-input")
 	}
 
@@ -821,7 +821,7 @@ func main() {
 	var edis []*Case
 	for i := 0; i < nedi; i++ {
 		c := genEdiLong(r)
-		h.generated(c, i%6 == 0)
+		h.generated(c, i%6 == 0 && i < 300)
 		h.sum.Hist("edi-long-input")
 		edis = append(edis, c)
 		if n := len(edis); n >= 3 && i%2 == 1 {
